@@ -1,6 +1,7 @@
 package operators
 
 import (
+	"math/big"
 	"strings"
 
 	"github.com/nyaruka/goflow/envs"
@@ -109,10 +110,27 @@ var Exponent = numericalBinary(func(env envs.Environment, num1 *types.XNumber, n
 		return types.NewXErrorf("exponent %s is out of range", num2.Render())
 	}
 
-	return types.NewXNumber(num1.Native().Pow(num2.Native()))
+	// the precision of the calculation depends on how many digits the operands are written with, so equal numbers
+	// like 12.5 and 12.50 are first brought to the same form
+	return types.NewXNumber(trimFraction(num1.Native()).Pow(trimFraction(num2.Native())))
 })
 
 var maxExponent = decimal.New(10000, 0)
+
+// removes trailing zeros from the fractional part of the given number
+func trimFraction(d decimal.Decimal) decimal.Decimal {
+	coef, exp := d.Coefficient(), d.Exponent()
+	ten, rem := big.NewInt(10), new(big.Int)
+
+	for exp < 0 {
+		quo := new(big.Int)
+		if quo.QuoRem(coef, ten, rem); rem.Sign() != 0 {
+			break
+		}
+		coef, exp = quo, exp+1
+	}
+	return decimal.NewFromBigInt(coef, exp)
+}
 
 // LessThan returns true if the first number is less than the second.
 //
